@@ -23,14 +23,14 @@ theorem setWorker_proj {s : State} {w' : Worker} (hn : (s.workers.map wkey).Nodu
 
 theorem CFrame.of_same {s s' : State} (h1 : s'.cleanup = s.cleanup) (h2 : s'.workers = s.workers)
     (h3 : s'.scqs = s.scqs) (h4 : s'.ops = s.ops) (h5 : s'.tasks = s.tasks) : CFrame s s' :=
-  ⟨h1, by rw [h2], by rw [h3], h4, fun k => by simp [State.task?, h5]⟩
+  ⟨h1, by rw [h2], fun q => by simp [State.scq?, h3], h4, fun k => by simp [State.task?, h5]⟩
 
 /-- one task rewritten keeping `response.isSome` and `ops` -/
 theorem CFrame.of_task {s s' : State} {k0 : Nat} {t0 t2 : Task} (h0 : s.task? k0 = some t0)
     (hr : t2.response.isSome = t0.response.isSome) (ho : t2.ops = t0.ops)
     (h1 : s'.cleanup = s.cleanup) (h2 : s'.workers = s.workers) (h3 : s'.scqs = s.scqs) (h4 : s'.ops = s.ops)
     (h5 : ∀ k, s'.task? k = if k0 = k then some t2 else s.task? k) : CFrame s s' := by
-  refine ⟨h1, by rw [h2], by rw [h3], h4, ?_⟩
+  refine ⟨h1, by rw [h2], fun q => by simp [State.scq?, h3], h4, ?_⟩
   intro k; rw [h5]
   split
   · rename_i e; subst e; rw [h0]; simp [hr, ho]
@@ -42,7 +42,7 @@ theorem detachW_cframe {s : State} (t : Task) (hw : WInv s) : CFrame s (detachW 
   · split
     · rename_i q w wk hwk
       obtain ⟨hm, _, _⟩ := worker?_mem hwk
-      exact ⟨rfl, setWorker_proj hw.uniq hm rfl rfl, rfl, rfl, fun _ => rfl⟩
+      exact ⟨rfl, setWorker_proj hw.uniq hm rfl rfl, fun _ => rfl, rfl, fun _ => rfl⟩
     · exact CFrame.refl _
   · exact CFrame.refl _
 
@@ -57,7 +57,7 @@ theorem schedule_cframe {h : Hints} {s s' : State} {tid : Nat} (hh : schedule h 
       simp only [wakeWorker, worker?_setWorker, and_self, if_true, hlk, Option.map_some, Option.some.injEq] at hw1
       exact hw1.symm
     subst e1
-    refine ⟨rfl, ?_, rfl, rfl, ?_⟩
+    refine ⟨rfl, ?_, fun _ => rfl, rfl, ?_⟩
     · have : (assignS (wakeWorker s w) { w with parked := false, woken := true } t).workers =
           (s.setWorker { w with parked := false, woken := true, task := some t.id }).workers := by
         simp only [assignS_workers, wakeWorker]; exact setWorker_twice s _ _ rfl
